@@ -21,7 +21,7 @@ CONFIG = dict(
              "are covered by the model and ckd_fail_coincide only. The curve group assumption of C14 applies to ckd_commutes.",
         technique="Lean 4 proof at specification level + published vectors through the specification + differential correspondence",
     ),
-    translators=["bip39words"],
+    translators=["bip39words", "b58consts"],  # b58consts: Sky.C16.Spec uses Sky.C15.Spec (base58 of xprv/xpub), whose constants are regenerated
     props_files=["Sky/Props/C16.lean"],
     model_files=["Sky/C16/Spec.lean", "Sky/C16/Lemmas.lean", "Sky/C16/Drv.lean", "Sky/Crypto/Secp256k1.lean"],
     min_ops={"quick": 500, "thorough": 5000},
